@@ -27,7 +27,8 @@ RULE = (
     "cases = (executable of 1-3 words, 0..6 template fields each instantiating a documented form: "
     "positional <x[:type]>, `--opt <x[:type]>`, `-f<flag[=bool]>`, <out|x[:type]>, `--opt <out|x>`, "
     "<modify|x:type>; types int/float/str, generic and MIME-like file types, fixed and `...` tuples; "
-    "modifiers ?, +, *, =literal, $path-template (optionally referencing an int/str field); plus one "
+    "modifiers ?, +, *, =literal (numbers, tuples, quoted strings - 1 in 8 with punctuation such as "
+    "= $ : , ? + *), $path-template (optionally referencing an int/str field, rarely containing '='); plus one "
     "value assignment: set/unset optionals, 0..3 elements for multi fields, files/directories "
     "created on disk, True or an explicit path for outputs).  Additionally every single-field "
     "template (form x type x modifier x supplied/unset) is enumerated.  Non-trivial = >=3 fields "
@@ -163,8 +164,9 @@ def check_case(case):
     except Exception as e:  # noqa  every generated template is in the documented grammar
         forms = "+".join(sorted({R.form(t) for t in case["tokens"]})) if len(case["tokens"]) == 1 else "multi"
         sig = exception_signature(e, "define-raises") + (f":{forms}" if forms != "multi" else "")
-        if isinstance(e, (ValueError, NameError, SyntaxError, TypeError)) and _equals_inside(case):
+        if _equals_inside(case):
             # defect model: the parser splits the token at every '=' before looking at quotes or '$'
+            # (what is raised depends on what the pieces then look like: unpacking, eval, type lookup)
             sig = "define-raises:equals-sign-inside-default-or-path-template"
         return [dict(signature=sig, observed=short(e), expected="a task class", detail=dict(template=text))]
     out = check_fields(case, T)
